@@ -92,6 +92,28 @@ def make_array(n, chunks, axis_last=True):
     return da.from_array(vals.T.copy(), chunks=(chunks, (1, 1))), 0
 
 
+def make_dataset(n, chunks):
+    """Variables that carry x at different axis positions, one in memory, one without x."""
+    import dask.array as da
+    import xarray as xr
+
+    a, _ = make_array(n, chunks, True)   # (y, x)
+    b, _ = make_array(n, chunks, False)  # (x, y)
+    sq = da.from_array(np.arange(n * n, dtype=float).reshape(n, n), chunks=((n,), chunks))  # (z, x), square
+    ds = xr.Dataset(dict(a=(("y", "x"), a), b=(("x", "y"), b), sq=(("z", "x"), sq), c=(("x",), np.arange(n, dtype=float)),
+                         d=(("y",), da.from_array(np.array([1.0, 2.0]), chunks=1))))
+    return ds, [("a", a, -1), ("b", b, 0), ("sq", sq, -1)]
+
+
+def dataset_untouched(before, after):
+    probs = []
+    if type(after["c"].data) is not type(before["c"].data) or not np.array_equal(after["c"].values, before["c"].values):
+        probs.append("in-memory variable c changed")
+    if after["d"].chunks != before["d"].chunks:
+        probs.append(f"variable d (no x dimension) was rechunked: {before['d'].chunks} -> {after['d'].chunks}")
+    return probs
+
+
 def check_blockwise(res, labels, chunks, flavour, axis_last, sequential, values, reduce_):
     import flox
 
@@ -110,13 +132,37 @@ def check_blockwise(res, labels, chunks, flavour, axis_last, sequential, values,
             from flox.xarray import rechunk_for_blockwise as xrb
 
             dims = ("y", "x") if axis_last else ("x", "y")
-            obj = xr.DataArray(arr, dims=dims, name="v")
-            out = xrb(obj, "x", xr.DataArray(labels, dims="x", name="lab")).data
+            if flavour == "dataset":
+                obj, pairs_in = make_dataset(n, chunks)
+                outds = xrb(obj, "x", xr.DataArray(labels, dims="x", name="lab"))
+                pairs = [(b, outds[k].data, ax) for k, b, ax in pairs_in]
+                extra = dataset_untouched(obj, outds)
+                arr, out, axis = pairs[0]
+            else:
+                obj = xr.DataArray(arr, dims=dims, name="v")
+                out = xrb(obj, "x", xr.DataArray(labels, dims="x", name="lab")).data
     except Exception as e:
         res.outcomes[f"error:{type(e).__name__}"] += 1
         res.violate("blockwise-error", case, dict(exc=type(e).__name__, msg=str(e)[:200]), "a rechunked array", tags=dict(tags, kind="error"), size=n * 10)
         return
     res.compared += 1
+    if flavour == "dataset":
+        if extra:
+            res.outcomes["mismatch"] += 1
+            res.violate("blockwise-generic", case, dict(problems=extra), "variables without the dimension (or in memory) are left alone", tags=dict(tags, kind="generic"), size=n * 10)
+            return
+        # every variable carrying the dimension, whatever its position, satisfies the postconditions
+        for b, o, ax in pairs[1:]:
+            if not generic_post(res, "blockwise", case, tags, b, o, ax, n, values):
+                return
+            if sequential:
+                bnds = set(np.cumsum(o.chunks[ax])[:-1].tolist())
+                inside = [x for x in bnds if labels[x - 1] == labels[x]]
+                if inside:
+                    res.outcomes["mismatch"] += 1
+                    res.violate("blockwise-straddle", case, dict(new_chunks=list(o.chunks[ax]), boundaries_inside_a_run=inside, variable_axis=ax),
+                                "no group straddles a chunk boundary", tags=dict(tags, kind="straddle"), size=n * 10)
+                    return
     if not generic_post(res, "blockwise", case, tags, arr, out, axis, n, values):
         return
     ch = out.chunks[axis]
@@ -162,9 +208,21 @@ def check_cohorts(res, labels, chunks, forced, chunksize, ignore, flavour, value
             import xarray as xr
             from flox.xarray import rechunk_for_cohorts as xrc
 
-            obj = xr.DataArray(arr, dims=("y", "x"), name="v")
-            out = xrc(obj, "x", xr.DataArray(labels, dims="x", name="lab"), force_new_chunk_at=list(forced), chunksize=chunksize,
-                      ignore_old_chunks=ignore).data
+            if flavour == "dataset":
+                obj, pairs_in = make_dataset(n, chunks)
+                outds = xrc(obj, "x", xr.DataArray(labels, dims="x", name="lab"), force_new_chunk_at=list(forced), chunksize=chunksize,
+                            ignore_old_chunks=ignore)
+                pairs = [(b, outds[k].data, ax) for k, b, ax in pairs_in]
+                arr, out, axis = pairs[1]  # the variable with x first
+                if dataset_untouched(obj, outds) or any(o.chunks[ax] != pairs[0][1].chunks[-1] for _, o, ax in pairs):
+                    res.outcomes["mismatch"] += 1
+                    res.violate("cohorts-generic", case, dict(chunks={k: [list(c) for c in outds[k].chunks] for k in ("a", "b", "sq")}, problems=dataset_untouched(obj, outds)),
+                                "every variable carrying x gets the same new chunks along x; the others are left alone", tags=dict(tags, kind="generic"), size=n * 10)
+                    return
+            else:
+                obj = xr.DataArray(arr, dims=("y", "x"), name="v")
+                out = xrc(obj, "x", xr.DataArray(labels, dims="x", name="lab"), force_new_chunk_at=list(forced), chunksize=chunksize,
+                          ignore_old_chunks=ignore).data
     except ValueError as e:
         res.outcomes["refused:ValueError"] += 1
         if present:
@@ -213,6 +271,10 @@ def run_shard(shard):
                         continue
                     check_blockwise(res, labels, ch, flavour, axis_last, True, n <= shard["values_n"], n <= shard["reduce_n"])
                     res.nontrivial += 1 if inside else 0
+            if n <= 5:
+                # a Dataset whose variables carry the dimension at different axis positions
+                check_blockwise(res, labels, ch, "dataset", True, True, n <= 3, False)
+                res.nontrivial += 1 if inside else 0
         res.sample(dict(leg=leg, n=n, runs=list(pairs[len(pairs) // 2][0]), chunks=list(pairs[len(pairs) // 2][1])))
     elif leg == "blockwise-irregular":
         for m in range(2, n + 1):
@@ -232,6 +294,8 @@ def run_shard(shard):
                         res.nontrivial += 1
                 if n <= 3:
                     check_cohorts(res, labels, ch, forced, None, False, "xarray", True)
+                if n <= 4:
+                    check_cohorts(res, labels, ch, forced, None, False, "dataset", n <= 3)
         res.sample(dict(leg=leg, n=n, labels=list(pairs[len(pairs) // 2][0]), chunks=list(pairs[len(pairs) // 2][1]), forced=[[1], [1, 3], [2]]))
     elif leg == "history":
         # a second call with DIFFERENT labels of equal length and equal chunks (memoised helper) gives its own answer
